@@ -13,7 +13,10 @@ import (
 // ---- PRNG for workload generation (explore mode only; the generated World is
 // stored in the replay file, so a replay does not depend on this generator) ----
 
-type rng struct{ s uint64 }
+type rng struct {
+	s     uint64
+	focus string // swarm: this run's projects are mostly of this kind ("" = the default mix)
+}
 
 func (r *rng) next() uint64 {
 	r.s += 0x9e3779b97f4a7c15
@@ -350,9 +353,146 @@ func genTypeText(r *rng, names, enums []string) (kind, text string) {
 	case c < 90:
 		return "j", r.pick(corpus.JInvalid) // a broken type
 	default:
+		if r.pct(40) {
+			return "r", genRegexText(r)
+		}
 		return "r", r.pick(corpus.Regex)
 	}
 }
+
+// ---- small grammars for the non-JSight entry points (the harvested corpus has only
+// a few dozen enum rules and regexes; state that survives between two inputs of the
+// same kind - a pooled scanner, a memo - needs many *different* inputs of that kind,
+// valid and failing, after one another) ---------------------------------------------
+
+var jsonScalars = []string{`42`, `0`, `-1`, `3.14`, `12e3`, `1E-2`, `-0.5`, `7`, `100`, `"abc"`, `""`, `"a\"b"`, `"\u0041"`, `"x y"`, `true`, `false`, `null`,
+	`"2021-01-02"`, `"a.b"`, `1.50`, `9007199254740993`, `"/"`, `"//"`}
+var jsonBroken = []string{`tru`, `nul`, `fals`, `-`, `"abc`, `"a\`, `"\u12`, `1.`, `1e`, `+1`, `.5`, `01`, `truee`, `nulll`, `'a'`, `"a" "b"`, `1 2`, `,`, `:`, `}`, `]`}
+
+func genJSONValue(r *rng, depth int, broken *bool) string {
+	if *broken && r.pct(25) {
+		*broken = false
+		return r.pick(jsonBroken)
+	}
+	c := r.n(10)
+	if depth > 2 {
+		c = 9
+	}
+	sp := r.pick([]string{"", "", " ", "\n", "\t"})
+	switch {
+	case c < 2:
+		n := r.n(4)
+		var parts []string
+		for i := 0; i < n; i++ {
+			parts = append(parts, sp+`"`+r.pick([]string{"a", "b", "k", "id", "x y", ""})+strconv.Itoa(i)+`":`+sp+genJSONValue(r, depth+1, broken))
+		}
+		return "{" + strings.Join(parts, ",") + sp + "}"
+	case c < 4:
+		n := r.n(4)
+		var parts []string
+		for i := 0; i < n; i++ {
+			parts = append(parts, sp+genJSONValue(r, depth+1, broken))
+		}
+		return "[" + strings.Join(parts, ",") + sp + "]"
+	default:
+		return r.pick(jsonScalars)
+	}
+}
+
+func genJSONText(r *rng) string {
+	broken := r.pct(30)
+	t := genJSONValue(r, 0, &broken)
+	if broken {
+		// the break was not placed yet: cut the text inside, or leave rubbish behind it
+		if r.pct(50) && len(t) > 1 {
+			t = t[:1+r.n(len(t)-1)]
+		} else {
+			t += r.pick([]string{" x", ",", "]", " 1", "}"})
+		}
+	}
+	return r.pick([]string{"", "", " ", "\n"}) + t + r.pick([]string{"", "", "", " ", "\n", "\r\n", "  \t"})
+}
+
+var enumLiterals = []string{`"a"`, `"b"`, `"red"`, `"green"`, `"a.b"`, `"1.5"`, `1`, `2`, `42`, `1.5`, `3.14`, `1e2`, `-1`, `true`, `false`, `null`, `""`, `"\u0061"`, `"/"`, `"x//y"`, `"CAT"`}
+
+func genEnumText(r *rng) string {
+	n := r.n(6)
+	multi := r.pct(50)
+	var sb strings.Builder
+	sb.WriteString(r.pick([]string{"", "", " ", "\n"}))
+	sb.WriteString("[")
+	if multi {
+		sb.WriteString("\n")
+	}
+	lits := r.perm(len(enumLiterals))
+	for i := 0; i < n; i++ {
+		if multi && r.pct(25) {
+			sb.WriteString("  // " + r.pick([]string{"interline", "colours", "a, b", "x [1]"}) + "\n")
+		}
+		if multi && r.pct(8) {
+			sb.WriteString("  /* block\n     comment */\n")
+		}
+		lit := enumLiterals[lits[i]]
+		if r.pct(6) {
+			lit = enumLiterals[lits[0]] // a repeated value: rejected
+		}
+		if multi {
+			sb.WriteString("  ")
+		}
+		sb.WriteString(lit)
+		if i != n-1 {
+			sb.WriteString(r.pick([]string{",", ", ", " ,"}))
+		}
+		if multi {
+			if r.pct(30) {
+				sb.WriteString(" // " + r.pick([]string{"c", "note: x", "\"q\""}))
+			}
+			sb.WriteString("\n")
+		}
+	}
+	if multi && r.pct(15) {
+		sb.WriteString("  // last\n")
+	}
+	sb.WriteString("]")
+	switch r.n(10) {
+	case 0:
+		sb.WriteString(" // the end") // ends inside an inline comment, no newline
+	case 1:
+		sb.WriteString(" // the end\n")
+	case 2:
+		sb.WriteString("\n")
+	case 3:
+		sb.WriteString(" x")
+	case 4:
+		sb.WriteString("  \t ")
+	}
+	t := sb.String()
+	if r.pct(12) {
+		t = r.pick([]string{`[1,]`, `[,1]`, `[`, `[1 2]`, `{}`, `"a"`, `[[1]]`, `[{}]`, `[1, // c`, `[1] // c\n x`, `[tru]`, `[1, nul`, `["a`, `[-]`})
+	}
+	return t
+}
+
+var regexBodies = []string{`[a-z]{1,3}`, `\\d+`, `foo-\\d`, `(a|b)c`, `^x.y$`, `[A-Z][a-z]*`, `a{2,3}`, `\\w+@\\w+\\.com`, `[^0-9]`, `(?:ab)+`, `x?y*`, `\\/`, `.`, `\\x41`, `世界`}
+
+func genRegexText(r *rng) string {
+	t := "/" + r.pick(regexBodies) + r.pick([]string{"", "", r.pick(regexBodies)}) + "/"
+	switch r.n(12) {
+	case 0:
+		t = t[:len(t)-1] // no closing slash
+	case 1:
+		t = t[1:] // no opening slash
+	case 2:
+		t = "/" + r.pick([]string{`[a-`, `(`, `a{2,1}`, `*`, `\\l`, `(?P<n`, `[z-a]`}) + "/"
+	case 3:
+		t += r.pick([]string{" ", "\n", " x", "  "})
+	case 4:
+		t = " " + t
+	}
+	return t
+}
+
+var allKinds = []string{"jschema", "rschema", "enum", "jsondoc", "guess"}
 
 func genProject(r *rng, tornPct int) Project {
 	var p Project
@@ -368,19 +508,34 @@ func genProject(r *rng, tornPct int) Project {
 	default:
 		p.Kind = "guess"
 	}
+	if r.focus != "" && r.pct(70) {
+		p.Kind = r.focus
+	}
 	p.Name = []string{"root", "schema.jst", "x"}[r.n(3)]
 	switch p.Kind {
 	case "rschema":
 		p.Text = r.pick(corpus.Regex)
+		if r.pct(50) {
+			p.Text = genRegexText(r)
+		}
 	case "enum":
 		p.Text = r.pick(corpus.Enum)
+		if r.pct(60) {
+			p.Text = genEnumText(r)
+		}
 	case "jsondoc":
 		p.Text = r.pick(corpus.JSON)
+		if r.pct(50) {
+			p.Text = genJSONText(r)
+		}
 		if r.pct(15) {
 			p.Name = "trail"
 		}
 	case "guess":
 		p.Text = r.pick(corpus.Guess)
+		if r.pct(30) {
+			p.Text = r.pick(jsonScalars)
+		}
 	case "jschema":
 		names := namePool[:1+r.n(len(namePool)-1)]
 		enums := []string{}
@@ -432,7 +587,7 @@ func genProject(r *rng, tornPct int) Project {
 			}
 		}
 		if r.pct(12) {
-			p.Rules = append(p.Rules, RuleSpec{Name: "@unused", Text: r.pick(corpus.Enum)})
+			p.Rules = append(p.Rules, RuleSpec{Name: "@unused", Text: pickEnum(r)})
 		}
 	}
 	if tornPct > 0 && r.pct(tornPct) {
@@ -445,6 +600,13 @@ func genProject(r *rng, tornPct int) Project {
 		}
 	}
 	return p
+}
+
+func pickEnum(r *rng) string {
+	if r.pct(50) {
+		return genEnumText(r)
+	}
+	return r.pick(corpus.Enum)
 }
 
 func hasDuplicateNames(p *Project) bool {
@@ -467,8 +629,24 @@ func hasDuplicateNames(p *Project) bool {
 
 // ---- worlds ------------------------------------------------------------------
 
+// sharedOnly: the calls C11 lists for one schema object used by several tasks.
+// Calls on the type and rule objects registered with it are other objects' calls
+// and are issued only by the task that owns the whole object graph.
+func sharedKinds(kinds []string) []string {
+	var out []string
+	for _, k := range kinds {
+		if k != "rules" && k != "types" && k != "inner" {
+			out = append(out, k)
+		}
+	}
+	return out
+}
+
 func readOps(r *rng, obj int, kind string, min, max int) []Op {
-	kinds := scriptKinds(kind)
+	return readOpsOf(r, obj, kind, scriptKinds(kind), min, max)
+}
+
+func readOpsOf(r *rng, obj int, kind string, kinds []string, min, max int) []Op {
 	// de-duplicate the regex example repetitions: the generator decides multiplicity
 	uniq := kinds[:0:0]
 	seen := map[string]bool{}
@@ -581,6 +759,9 @@ func genWorldC09(seed uint64, proj *Project) *World {
 func genWorldC10(seed uint64, faults bool) *World {
 	r := &rng{s: seed}
 	w := &World{Prop: "C10", Seed: seed, Cfg: swarmCfg(r, "C10")}
+	if r.pct(40) {
+		r.focus = r.pick(allKinds) // swarm: a history mostly about one kind of input
+	}
 	if !faults {
 		w.Cfg.PoolFreshPct, w.Cfg.PoolAnyPct, w.Cfg.PoolDropPct = 0, 0, 0
 	}
@@ -636,6 +817,9 @@ func genWorldC10(seed uint64, faults bool) *World {
 func genWorldC11(seed uint64, tornOthers bool) *World {
 	r := &rng{s: seed}
 	w := &World{Prop: "C11", Seed: seed, Cfg: swarmCfg(r, "C11")}
+	if r.pct(40) {
+		r.focus = r.pick(allKinds) // swarm: tasks mostly working on one kind of input
+	}
 	ntasks := 2 + r.n(3)
 	w.Tasks = make([][]Op, ntasks)
 	shared := -1
@@ -661,7 +845,7 @@ func genWorldC11(seed uint64, tornOthers bool) *World {
 	for t := 0; t < ntasks; t++ {
 		var ops []Op
 		if shared >= 0 {
-			ops = append(ops, readOps(r, shared, w.Objects[shared].Kind, 1, 5)...)
+			ops = append(ops, readOpsOf(r, shared, w.Objects[shared].Kind, sharedKinds(scriptKinds(w.Objects[shared].Kind)), 1, 5)...)
 		}
 		nown := r.n(3)
 		if shared < 0 {
